@@ -982,6 +982,7 @@ class Prop(Check):
         "RuleTypes.C03_children_alternative",
         "RuleTypes.C03_children_firstNM",
         "RuleTypes.C03_result_alternative",
+        "RuleTypes.C03_result_spec",
         "RuleTypes.C03_result_instance",
         "RuleTypes.C03_inh_lower",
         "RuleTypes.C03_inh_upper",
